@@ -189,6 +189,15 @@ bool account_t::remove_post(post_t * post)
   // parsing, when the posting knows what it's account is, but
   // xact_t::finalize has not yet added that posting to the account.
   posts.remove(post);
+
+  // A deferred posting waits in deferred_posts for the end of the file.  If
+  // its transaction is refused after xact_base_t::finalize has put it there,
+  // it must not be applied then: it no longer exists.
+  if (deferred_posts) {
+    foreach (deferred_posts_map_t::value_type& pair, *deferred_posts)
+      pair.second.remove(post);
+  }
+
   post->account = NULL;
   return true;
 }
